@@ -9,6 +9,7 @@ package main
 import (
 	"bufio"
 	"bytes"
+	"context"
 	"encoding/json"
 	"errors"
 	"flag"
@@ -303,6 +304,43 @@ func runStrings(out, tier string, rng *rand.Rand) {
 	for _, s := range []string{"a b", "a=b", "a\"b", "a\\b", "\\", "\\n", "x\ny=z", " ", "=", "\"", "a.b", "\xe2\x80", "\xc0\xaf", "k=v k2=v2", "tab\there", " ", "a b", "　x"} {
 		for _, p := range positions {
 			emit(s, p)
+		}
+	}
+	// record times given explicitly, in an order a clock does not produce (later, earlier, same second, other zones), through
+	// one handler family: the time token must give back each record's own time
+	{
+		c := &capture{}
+		root := logger.NewTextHandler(c, logger.NewOptions(logger.LevelInfo, false, false))
+		fam := []logger.Handler{root, root.WithAttrs([]slog.Attr{slog.String("k", "v")}), root.WithGroup("g")}
+		t0 := time.Date(2024, 2, 29, 23, 59, 58, 0, time.UTC)
+		offs := []time.Duration{0, time.Second, 0, -time.Hour, 1500 * time.Millisecond, 2 * time.Second, -24 * time.Hour, 400 * 24 * time.Hour, 999 * time.Millisecond, -time.Second}
+		zones := []*time.Location{time.UTC, time.FixedZone("", 5*3600+1800), time.FixedZone("", -1800), time.FixedZone("", -3600*9)}
+		for i := 0; i < 40; i++ {
+			tm := t0.Add(offs[i%len(offs)]).In(zones[(i/3)%len(zones)])
+			c.writes = nil
+			r := slog.NewRecord(tm, logger.LevelInfo, "m", 0)
+			fam[i%len(fam)].Handle(context.Background(), r)
+			line := []byte{}
+			if len(c.writes) == 1 {
+				line = c.writes[0]
+			}
+			w.Put(map[string]any{"mode": "time", "in": vio.Ints(tm.Format(time.RFC3339)), "pos": "time", "tail": vio.Ints(string(line)), "onewrite": len(c.writes) == 1, "head": true})
+			n++
+		}
+	}
+	// the caller's file as the compiler reports it may contain anything a directory or file name may contain
+	for _, viaWith := range []bool{false, true} {
+		c := &capture{}
+		l := logger.New(logger.NewTextHandler(c, logger.NewOptions(logger.LevelInfo, false, true)))
+		if viaWith {
+			l = l.With("w", 1).WithGroup("g")
+		}
+		for _, f := range weirdCallers {
+			c.writes = nil
+			f(l)
+			t, one, head := tail(c, "INFO")
+			w.Put(map[string]any{"mode": "source", "in": []int{}, "pos": map[bool]string{false: "plain", true: "derived"}[viaWith], "tail": t, "onewrite": one, "head": head})
+			n++
 		}
 	}
 	fmt.Println(n)
